@@ -487,6 +487,14 @@ class _WLoc:
         self.f.written.append(col)
 
 
+def _wf_setattr(self, ex, attr, v, pc):
+    if attr in self.cols:
+        self.hv_setitem(ex, attr, v, pc)
+        return
+    raise Unsupported(f"window frame attribute assignment {attr}")
+
+
+WFrame.hv_setattr = _wf_setattr
 _old_wf_getattr = WFrame.hv_getattr
 
 
